@@ -48,6 +48,13 @@ CLAIMED = {
  'C13': dict(level='model_checking', ref='5/C13',
    text='Self-composition: a listener-free reference versus solvers carrying a recording listener derived from the base class overriding each of the 16 subsets of callbacks, and the shipped console listener in its three modes with stdout captured (symbolic numbers print as term tags, so report contents are compared exactly): notification count, order and contents, OnMethodStop solution, non-interference on trials and result, console report = solution fields; batches then Solve, N in {1,2}, with and without refinement (stub). Painting listeners are NOT covered (matplotlib/sklearn cannot be executed symbolically).',
    note='z3; symex proxies; print stub; minimize stub; the four painting listeners are outside the claim'),
+
+ 'C19': dict(level='model_checking', ref='5/C19',
+   text='The real SearchData, SearchDataDualQueue, CharacteristicsQueue and depq.DEPQ executed on all operation sequences up to a length (plus seeded longer ones) over insert with/without hint, clear, refill, best (global/local), covering lookup and re-computed characteristics, with every coordinate and characteristic a symbolic real (ties included): after every operation the public methods are compared with a reference model (sorted list + multiset of queued entries); bounded queue keeps the maxlen largest keys. Comparison-only arithmetic, decided by z3 over all orderings.',
+   note='z3 (linear real arithmetic); symex proxies; nothing stubbed; sequence length and number of insertions bounded as stated'),
+ 'C20': dict(level='model_checking', ref='5/C20',
+   text='Solver.__init__ and Evolvent with SolverParameters.evolventDensity a symbolic integer in 2..12 (descent loop trip count split by the solver), N = 2..5, non-symmetric boxes: the evolvent carries the configured density and every trial coordinate of the first iterations is lower+(j+1/2)(upper-lower)/2^m; GetImage at symbolic density for dyadic and non-dyadic coordinates; whole runs with symbolic trial locations for N=2, m<=3. One-bit-per-level refinement from every orientation state is lemma A of C07.',
+   note='z3; symex proxies and evolvent shims; floats as reals (exact for N*m<=50)'),
 }
 checks = []
 for p in props:
